@@ -176,7 +176,8 @@ def run_history(ops, nservers):
             token_n[0] += 1
             token = b"T%05d" % token_n[0]
             if len(op) > 4 and op[4]:
-                token += b"s" * 1500          # too long for one APDU: the request (and its answer) travel in segments
+                # too long for one APDU: the request (and its answer) travel in segments (2 = many segments, several windows)
+                token += b"s" * (1500 if op[4] is True or op[4] == 1 else 9000)
                 stats["segmented_requests"] = stats.get("segmented_requests", 0) + 1
             req = L.apdu.ConfirmedPrivateTransferRequest(vendorID=999, serviceNumber=1)
             req.serviceParameters = L.Any(L.OctetString(token))
@@ -240,6 +241,16 @@ def run_history(ops, nservers):
                 cm, inv = app.answer(op[2] % len(app.pending))
                 server_busy.pop((peer, cm, inv), None)
                 settle()
+        elif k == "ansall":
+            # the serving application answers everything it holds in one go: several (segmented) answers are under way at the same time
+            peer = SERVERS[op[1] % nservers]
+            app = servers[peer].app
+            while app.pending:
+                k_ = app.pending[0]
+                mark_answered(peer, k_.pduSource.addrAddr[0], k_.apduInvokeID)
+                cm, inv = app.answer(0)
+                server_busy.pop((peer, cm, inv), None)
+            settle()
         elif k == "dup":
             # re-inject a copy of an earlier reply frame (server -> client), verbatim
             replies = [f for f in lab.net.log if f["src"] in SERVERS and f["dst"] in CLIENTS]
@@ -328,6 +339,33 @@ def run_history(ops, nservers):
             extra = [x for x in seen if not any(x == (s["client"], s["invoke"], s["token"]) for s in submitted)]
             if extra:
                 fails.append(("server-saw-unknown-request", "server %d saw %r" % (peer, extra[:2])))
+    if not fails and not stats["injected"]:
+        # (histories without injected frames only: a forged frame is indistinguishable from a real one in the wire log)
+        # on the wire: a client is sent only the segments ITS OWN acknowledgements allow (an ack of another client with the same ID must not move its window)
+        st8 = {}
+        for f in lab.net.log:
+            if f.get("act") and f["act"][0] == "drop":
+                continue
+            try:
+                a = RA.decode(RN.decode(f["data"])["data"])
+            except Exception:
+                continue
+            if a["type"] == 3 and a.get("seg") and f["src"] in SERVERS and f["dst"] in CLIENTS:
+                k8 = (f["src"], f["dst"], a["invoke"])
+                e8 = st8.setdefault(k8, dict(upto=-1, acked=None, win=None))
+                if a["seq"] == 0 and e8["upto"] >= 0 and e8["acked"] is not None and e8["upto"] == e8["acked"]:
+                    e8.update(upto=-1, acked=None, win=None)          # a new answer under the same key
+                if a["seq"] > e8["upto"]:
+                    if a["seq"] > 0 and (e8["acked"] is None or a["seq"] > e8["acked"] + (e8["win"] or 0)):
+                        fails.append(("response-segment-beyond-own-acks", "server %d sent client %d segment %d of the answer with invoke ID %d although that client has acknowledged only up to %r (window %r)"
+                                      % (f["src"], f["dst"], a["seq"], a["invoke"], e8["acked"], e8["win"])))
+                        break
+                    e8["upto"] = a["seq"]
+            elif a["type"] == 4 and not a.get("srv") and f["src"] in CLIENTS and f["dst"] in SERVERS:
+                e8 = st8.get((f["dst"], f["src"], a["invoke"]))
+                if e8 is not None and not a.get("nak"):
+                    e8["acked"] = max(e8["acked"] if e8["acked"] is not None else -1, a["seq"])
+                    e8["win"] = a["win"]
     sw = [r for r in boot.swallowed.take() if r[0]]
     if fails and sw:
         fails = [(fails[0][0] + ":%s@%s" % (sw[0][0], sw[0][1]), fails[0][1] + " swallowed %r" % (sw[:2],))] + fails[1:]
@@ -564,7 +602,8 @@ def op_strategy():
     from hypothesis import strategies as st
     req = st.tuples(st.just("req"), st.integers(0, 1), st.integers(0, 3), st.one_of(st.none(), st.none(), st.integers(0, 6), st.integers(0, 255)),
                     st.sampled_from([False, False, False, True])).map(list)
-    ans = st.tuples(st.just("ans"), st.integers(0, 3), st.integers(0, 7)).map(list)
+    ans = st.one_of(st.tuples(st.just("ans"), st.integers(0, 3), st.integers(0, 7)).map(list), st.tuples(st.just("ans"), st.integers(0, 3), st.integers(0, 7)).map(list),
+                    st.tuples(st.just("ansall"), st.integers(0, 3)).map(list))
     dup = st.tuples(st.just("dup"), st.integers(0, 30)).map(list)
     forge = st.tuples(st.just("forge"), st.sampled_from(["ack", "ack", "simpleack", "error", "segack", "abort", "reject", "abort-by-client", "abort-by-client", "segack-by-client"]), st.integers(0, 3),
                       st.integers(0, 255), st.integers(0, 1), st.integers(0, 2)).map(list)
@@ -609,6 +648,15 @@ def run(spec, ctx):
             ops = [["req", 0, 0, ahead + 1]] + [["req", 0, 0, None] for _ in range(ahead + 3)] + [["adv", 0.5]]
             ctx.check(dict(k="hist", ops=ops, nservers=1))
     elif kind == "twins":
+        # equal invoke IDs from two clients at one server, answers in segments and under way at the same time
+        for n in (1, 2, 4):
+            for big in ((True, True), (True, False), (False, True), (2, 2), (2, True)):
+                ops = []
+                for i in range(n):
+                    ops.append(["req", 0, 0, 10 + i, big[0]])
+                    ops.append(["req", 1, 0, 10 + i, big[1]])
+                ctx.check(dict(k="hist", ops=ops + [["ansall", 0]], nservers=1))
+                ctx.check(dict(k="hist", ops=ops[::-1] + [["ansall", 0], ["adv", 0.3]], nservers=1))
         # equal invoke IDs from two clients at one server
         for n in (1, 3, 8):
             ops = []
